@@ -27,6 +27,8 @@ JudgeCur(e) ==
   IN [ C18_before_genesis_fails |-> Must(E!BeforeGenesisFails(cfg, e.now, r)),
        C18_defined_from_genesis |-> Must(E!DefinedFromGenesis(cfg, e.now, r)),
        C18_id_formula           |-> G(e.ok, E!IdFormula(cfg, e.now, r)),
+       \* genesis and duration are whole seconds, so is every epoch's start (whatever sub-second part the block time has)
+       C18_current_start_is_a_whole_second |-> G(e.ok, e.sub = 0),
        C18_start_formula        |-> G(e.ok, E!StartFormula(cfg, r)),
        C18_partition            |-> G(e.ok, E!Partition(cfg, e.now, r)),
        C18_monotone             |-> G(same /\ BLe(gh.now, e.now), BLe(gh.id, e.id)),
@@ -35,7 +37,7 @@ JudgeCur(e) ==
 JudgeId(e) ==
   LET cfg == Cfg(e)
       r == IF e.ok THEN [ok |-> TRUE, id |-> e.rid, start |-> e.start] ELSE [ok |-> FALSE]
-  IN [ C18_epoch_start_formula |-> G(e.ok, e.rid = e.id /\ E!StartFormula(cfg, r)),
+  IN [ C18_epoch_start_formula |-> G(e.ok, e.rid = e.id /\ E!StartFormula(cfg, r) /\ e.sub = 0),
        C18_epoch_defined       |-> G(E!Representable(cfg, e.id), e.ok),
        C18_epoch_overflow_refused |-> G(~E!Representable(cfg, e.id), ~e.ok) ]
 JudgeUpd(e) ==
